@@ -44,12 +44,66 @@ class _CompoundLatency(LatencyDistribution):
         return Duration.from_seconds(base_dur.to_seconds() + extra_dur.to_seconds())
 
 
+# Several latency / loss faults may cover the same link with overlapping or
+# nested windows.  The link therefore carries the list of currently active
+# injections next to its configured value; the effective value is recomputed
+# whenever a window opens or closes, and the configured value comes back only
+# when the last window has closed.
+
+
+def _inject_latency(link, extra: LatencyDistribution) -> None:
+    state = getattr(link, "_injected_latency", None)
+    if state is None:
+        state = link._injected_latency = {"base": link.latency, "extras": []}
+    state["extras"].append(extra)
+    _apply_injected_latency(link, state)
+
+
+def _remove_latency(link, extra: LatencyDistribution) -> None:
+    state = getattr(link, "_injected_latency", None)
+    if state is None or not any(x is extra for x in state["extras"]):
+        return
+    state["extras"] = [x for x in state["extras"] if x is not extra]
+    _apply_injected_latency(link, state)
+    if not state["extras"]:
+        link._injected_latency = None
+
+
+def _apply_injected_latency(link, state) -> None:
+    latency = state["base"]
+    for extra in state["extras"]:
+        latency = _CompoundLatency(latency, extra)
+    link.latency = latency
+
+
+def _inject_loss(link, token: object, extra: float) -> None:
+    state = getattr(link, "_injected_loss", None)
+    if state is None:
+        state = link._injected_loss = {"base": link.packet_loss_rate, "extras": {}}
+    state["extras"][token] = extra
+    link.packet_loss_rate = min(1.0, state["base"] + sum(state["extras"].values()))
+
+
+def _remove_loss(link, token: object) -> None:
+    state = getattr(link, "_injected_loss", None)
+    if state is None or token not in state["extras"]:
+        return
+    del state["extras"][token]
+    if state["extras"]:
+        link.packet_loss_rate = min(1.0, state["base"] + sum(state["extras"].values()))
+    else:
+        link.packet_loss_rate = state["base"]
+        link._injected_loss = None
+
+
 @dataclass(frozen=True)
 class InjectLatency:
     """Add extra latency to a network link for a time window.
 
     At ``start``, replaces the link's latency with a compound distribution
-    that adds ``extra_ms`` milliseconds. At ``end``, restores the original.
+    that adds ``extra_ms`` milliseconds. At ``end``, removes this fault's
+    extra latency again; the configured latency is back once no latency
+    fault covers the link any more (windows may overlap or nest).
 
     Attributes:
         source_name: Source entity name for the link.
@@ -75,13 +129,12 @@ class InjectLatency:
         if link is None:
             raise ValueError(f"No link found: {self.source_name} -> {self.dest_name}")
 
-        original_latency = link.latency
         extra_dist = ConstantLatency(self.extra_ms / 1000.0)
         src = self.source_name
         dst = self.dest_name
 
         def activate(e: Event) -> None:
-            link.latency = _CompoundLatency(original_latency, extra_dist)
+            _inject_latency(link, extra_dist)
             logger.info(
                 "[FaultInjection] Injected +%sms latency on %s -> %s at %s",
                 self.extra_ms,
@@ -91,7 +144,7 @@ class InjectLatency:
             )
 
         def deactivate(e: Event) -> None:
-            link.latency = original_latency
+            _remove_latency(link, extra_dist)
             logger.info(
                 "[FaultInjection] Restored latency on %s -> %s at %s",
                 src,
@@ -127,7 +180,8 @@ class InjectPacketLoss:
     """Inject additional packet loss on a link for a time window.
 
     At ``start``, increases the link's ``packet_loss_rate``. At ``end``,
-    restores the original rate.
+    removes this fault's share again; the configured rate is back once no
+    loss fault covers the link any more (windows may overlap or nest).
 
     Attributes:
         source_name: Source entity name for the link.
@@ -151,13 +205,13 @@ class InjectPacketLoss:
         if link is None:
             raise ValueError(f"No link found: {self.source_name} -> {self.dest_name}")
 
-        original_loss = link.packet_loss_rate
         src = self.source_name
         dst = self.dest_name
         extra = self.loss_rate
+        token = object()  # identifies this fault's window among the link's active injections
 
         def activate(e: Event) -> None:
-            link.packet_loss_rate = min(1.0, original_loss + extra)
+            _inject_loss(link, token, extra)
             logger.info(
                 "[FaultInjection] Injected +%.1f%% packet loss on %s -> %s at %s",
                 extra * 100,
@@ -167,7 +221,7 @@ class InjectPacketLoss:
             )
 
         def deactivate(e: Event) -> None:
-            link.packet_loss_rate = original_loss
+            _remove_loss(link, token)
             logger.info(
                 "[FaultInjection] Restored packet loss on %s -> %s at %s",
                 src,
